@@ -2,6 +2,7 @@
 # Tier A: bounded-exhaustive program families (X1 operator ladders, X2 expression trees, X3 method table,
 # X4 literals, X5 statement sequences) run on the real Interpreter in-process and on the reference evaluator
 # (verif.reflang, written from the docs).  Tier B: the same kind of programs end-to-end through `meson setup`.
+import re
 import itertools, json, os, sys, time
 from verif.core import Check, pmap, run_main, scratch_root, NCPU
 from verif import reflang
@@ -406,7 +407,7 @@ def work(job):
             v2, d2 = judge(text, fresh)
             fresh.close()
             if v2 != v:
-                bad.append(('nondet', cls, text, '%s vs fresh %s' % (v, v2)))
+                bad.append(('nondet', cls, text, '%s vs fresh %s [family %s shard %d/%d tier %s]' % (v, v2, fam, shard, nshards, 'thorough' if thorough else 'quick')))
             else:
                 stats['bad'] += 1
                 if len(bad) < 200:
@@ -424,7 +425,7 @@ def work(job):
             fresh.close()
             stats['fresh_checked'] += 1
             if (v2, d2) != (v, d):
-                bad.append(('nondet', cls, text, 'reused interpreter %r vs fresh %r' % ((v, d), (v2, d2))))
+                bad.append(('nondet', cls, text, 'reused interpreter %r vs fresh %r [family %s shard %d/%d tier %s]' % ((v, d), (v2, d2), fam, shard, nshards, 'thorough' if thorough else 'quick')))
     return fam, stats, bad, sorted(classes), sample, succ, list(failreps.values())
 
 
@@ -629,8 +630,29 @@ def main():
     ck = Check('C01', 'exploration')
     if ck.args.replay:
         d = json.load(open(ck.args.replay))
-        v, det = judge(d['program'])
         print('program:\n' + d['program'])
+        m = re.search(r'\[family (\w+) shard (\d+)/(\d+) tier (\w+)\]', d.get('detail', ''))
+        if d.get('verdict') == 'history-dependent' and m:
+            # the verdict depends on what the same Interpreter evaluated before: replay the programs of that shard, in order,
+            # on one Interpreter up to this one, then the program itself on a brand-new one
+            fam, shard, nshards, tier = m.group(1), int(m.group(2)), int(m.group(3)), m.group(4)
+            pool = _get_pool()
+            n = 0
+            for i, (cls, text) in enumerate(FAMILIES[fam](tier == 'thorough')):
+                if i % nshards != shard:
+                    continue
+                n += 1
+                v = judge(text, pool)
+                if text == d['program']:
+                    from verif import interp
+                    fresh = interp.Pool()
+                    v2 = judge(text, fresh)
+                    print('after %d earlier programs of the shard: %r; on a brand-new Interpreter: %r' % (n - 1, v, v2))
+                    print('expected: the same verdict both times')
+                    sys.exit(0 if v == v2 else 1)
+            print('program not found in its shard')
+            sys.exit(2)
+        v, det = judge(d['program'])
         print('verdict now:', v, det)
         sys.exit(0 if v in ('ok', 'unspec') else 1)
     fams = [f for f in FAMILIES if ck.want(f)]
